@@ -76,7 +76,17 @@ func (e *engine) dirShrink(h shrinkCfg, rng *hx.Rng) {
 	c.Stat("histories.dirshrink." + cfg.Name)
 	run := func(id string, o op) bool {
 		step = o.String()
+		// Remove's write-back of the directory: the blocks before the call and the remaining entries go to the Lean
+		// model, which must produce the blocks found afterwards - checksum tails included (the empty blocks behind the
+		// re-packed entries carry the DIRECTORY's inode number and generation in their checksum)
+		var dpre *dirPre
+		if !e.fsck && o.kind == "remove" && c.Want(id) {
+			dpre = e.preDir(d, cfg, rn, o)
+		}
 		out := rn.exec(o)
+		if dpre != nil && out.panicked == "" && out.refused == nil && !e.def.rmStale {
+			emitDirRewrite(c, id, dpre, d, cfg, true)
+		}
 		switch {
 		case out.panicked != "":
 			c.Fail(id, "-", fmt.Sprintf("%s: %s: panic %s", cfg.Name, o.String(), out.panicked), repro())
